@@ -209,6 +209,9 @@ def build_schnitz(ex):
 
 
 roundtrip_contract('types', 'Schnitz', build_schnitz, 'mother-with-daughters')
+# a schnitz travelling on its own (a leaf, a sub-lineage root): its link to its mother is part of its state (seed C17-e dropped the parent
+# link from the schnitz's own state and rebuilt it only inside a whole Lineage)
+roundtrip_contract('types', 'Schnitz', lambda ex: build_schnitz(ex).fields['daughter1'], 'daughter-with-a-mother')
 
 
 def build_lineage_obj(ex):
